@@ -3799,9 +3799,11 @@ impl Lexer<'_> {
                 Some(';') | None => {
                     let rem_text = self.cursor.as_str();
 
-                    if rem_text.len() < ending_len {
-                        // Not enough characters left to match the ending
-                        // Emit error, but assume that we found the ending
+                    if rem_text.len() < ending_len && rem_text.bytes().all(|b| b == b';') {
+                        // Not enough characters left to match the ending, and all of
+                        // them are semicolons (or we are at EOF).
+                        // Emit error, but assume that we found the ending.
+                        // A semicolon followed by anything else is just data
                         self.emit_error(ErrorKind::UnterminatedDatalines);
                         break;
                     }
